@@ -35,6 +35,8 @@ def run(check):
     def r5(c):
         depth_rule(c, model(), 'C02.R5', fold_rule='C02.R5')
     check.run_rule('C02.R5', r5)
+    from ..rules_embed import rule_accumulator_by_position
+    check.run_rule('C02.R5b', lambda c: rule_accumulator_by_position(c, 'C02.R5'))
 
     # _embed fits the inner signature to the forwarded stars with the pairwise merger (`_Merger(inner, stars)`): the soundness
     # and exactness columns of its tables are part of "the surplus arguments outer forwards are accepted by inner" /
